@@ -97,6 +97,16 @@ CHECKS = {
             "Group order without ORDER BY, ORDER BY on unselected or non-integer columns and restriction on empty "
             "key values are not asserted.",
             "DESIGN.md 4 C08"),
+    "C09": ("exploration",
+            "property-based testing (Hypothesis): round-trip / differential decoding of json, csv, html, tabs, lines "
+            "output against the NUL-separated `into list` output of the same query",
+            "Tables from all four result paths with adversarial values and rows above 8 KiB and 64 KiB are requested "
+            "in every format and decoded with independent parsers (json, csv strict mode, a strict HTML grammar with "
+            "entity check): each must be well-formed and decode to exactly the rows of `into list` (sequence on the "
+            "ordered path, multiset elsewhere).",
+            "Python's json/csv/html modules are the reference decoders; JSON member order, CSV terminator and "
+            "colours are don't-care; tabs/lines only when no value contains the separator.",
+            "DESIGN.md 4 C09"),
 }
 
 PENDING = {}
